@@ -269,6 +269,12 @@ class Gen:
             self.emit("?")
         elif t == "int":
             self.emit(r.choice(["0", "1", "42", "0x1F", "0b101", "7"]))
+        elif t == "bit" and self.classes and r.random() < 0.15:
+            c = r.choice(sorted(self.classes))
+            self.emit("!isa<")
+            self.emit_type(c)
+            self.emit('>("%s")' % self.fresh("r"))
+            self.features.add("isa-class-type-in-value")
         elif t == "bit":
             self.emit(r.choice(["0", "1", "true", "false"]))
         elif t == "string":
@@ -292,6 +298,15 @@ class Gen:
                     self.emit(", ")
                 self.emit_value(inner, scope, depth + 1)
             self.emit("]")
+        elif t in self.classes and r.random() < 0.35:
+            # the class only as a TYPE inside a bang operator: no arguments of its own, hence no hints for it -- and, inside
+            # the argument list of another reference, none of the enclosing reference's arguments either (wave 4: C19-mut6)
+            self.emit("!cast<")
+            self.osp()
+            self.emit_type(t)
+            self.osp()
+            self.emit('>("%s")' % self.fresh("r"))
+            self.features.add("cast-class-type-in-value")
         elif t in self.classes and depth < 2:
             self.emit_class_ref(self.classes[t], scope, depth + 1, as_value=True)
         else:
